@@ -20,3 +20,13 @@ reg("C12", "mustuse")
 reg("C07", "recguard")
 reg("C07", "recguard", fn="check_limits")
 reg("C07", "panics", fn="check_compile")
+reg("C01", "scm")
+reg("C02", "scm", fn="check_narrow")
+reg("C12", "strsort")
+reg("C11", "strsort")
+reg("C01", "lbseq")
+reg("C03", "lbseq")
+reg("C03", "scm", fn="check_narrow")
+reg("C13", "scm", fn="check_narrow")
+reg("C03", "arm")
+reg("C04", "arm")
